@@ -150,6 +150,24 @@ CHECKS["C20"] = dict(
     technique="TLA+ contract + implementation-shaped spec checked by TLC, per-transition behaviour replay on the real functions in a chroot sandbox, seeded driver with TLC trace validation",
     design_ref="DESIGN.md section 4, C20")
 
+CHECKS["C08"] = dict(
+    text="TLC exhausts the implementation-shaped model LRUImpl (ecache.go/expirable.go as operations on an insertion-ordered map: "
+         "Get/Remove/Add on a hit, Add then First/Remove for the victim, the iterator loop of Clear, remove-and-recreate of expired "
+         "items) for capacities 1..3 (thorough 1..4) over 3-5 keys, proves that it refines the reference-LRU contract LRU.tla (same "
+         "results, same create/delete callback invocations, same content and recency order after every call) and that every created "
+         "value is resident xor was handed to the delete callback exactly once; one test per edge of that state graph (plus every pair "
+         "of consecutive calls for the smallest bounds, plus constructor calls with maxSize 0/-1 and a nil create function) is replayed on "
+         "the real lru.Cache, lru.ECache with strings.ToLower as non-injective key mapping and lru.ExpirableCache, with and without a "
+         "delete callback, each followed by an API-level probe of the final recency order; long recorded random traces on capacities up "
+         "to 64 are validated by TLC against the same contract operators. Bounded model checking plus conformance, not a proof for all "
+         "capacities or sequence lengths.",
+    note="Trusted: TLC, the LRU.tla contract (Apply/ApplyX; for the expirable wrapper: GetOrCreate, Remove if expired, GetOrCreate again), "
+         "the harness callbacks (value ids 1,2,3,...; items expiring one hour in the past/future instead of a clock). Sequential use only "
+         "(C09 covers concurrency); the order of delete callbacks within Clear is left open; a call that does not return within 13 s is "
+         "reported as a violation.",
+    technique="TLA+ contract + implementation-shaped spec, TLC refinement check, per-edge behaviour replay on the real objects with final-state probe, TLC simulation, TLC trace validation",
+    design_ref="DESIGN.md section 4, C08")
+
 
 PENDING_REASON = "check not built yet in this round; the TLA+ design for it is in DESIGN.md section 4"
 
